@@ -101,14 +101,19 @@ def parseCase : P (CertFields × Option (List (List (DN.Oid × DN.Runes))) × Op
   let uris ← listOf hexTok
   let emails ← listOf hexTok
   let sig ← hexTok
+  let x ← tok
+  if x != "X" then failure
+  let extTok ← tok
+  let sanExt : Option Bytes := if extTok == "none" then none else bytesOfHexStr extTok
+  let dirNames ← listOf (do let d ← hexTok; let t ← hexTok; pure (d, t))
   let k ← tok
   if k != "K" then failure
   let nk ← natTok
   let ktoks := (← get).take nk
   modify (·.drop nk)
   let child := if nk = 0 then none else Info.parse ktoks
-  let c : CertFields := mkFields version bcValid isCA mpl mplz serial (dnText subj) (dnText iss) skid akid nb na ku ek unk dns ips uris
-    emails sig child
+  let c : CertFields := { mkFields version bcValid isCA mpl mplz serial (dnText subj) (dnText iss) skid akid nb na ku ek unk dns ips uris
+    emails sig child with sanExt := sanExt, dirNames := dirNames }
   let rest ← get
   match rest with
   | "G" :: _ => do
